@@ -257,7 +257,20 @@ class StmtMixin:
         return VFunc(node.name, fn)
 
     def st_With(self, node, st):
-        raise Unsupported("with statement", node)
+        """context managers are modelled as plain bindings (no __exit__ effects): open(...) / ZipFile(...)"""
+        cur = [st]
+        for item in node.items:
+            nxt = []
+            for s in cur:
+                for s2, v in self.ev(item.context_expr, s):
+                    if item.optional_vars is not None:
+                        self.assign_target(item.optional_vars, v, s2)
+                    nxt.append(s2)
+            cur = nxt
+        out = []
+        for s in cur:
+            out.extend(self.exec_block(node.body, s))
+        return out
 
     def st_Try(self, node, st):
         raise Unsupported("try statement", node)
